@@ -10,17 +10,21 @@ VARIABLES tid, k, verdict
 \* only child returns the same number.  The tokens a reduction matched are those of its children, recursively through
 \* the reductions that produced them (the latest one returning that object: the outermost pass-through).
 Producer(c, j, id) == LET S == {q \in 1..(j - 1) : c.reds[q].rid = id} IN IF S = {} THEN 0 ELSE Max(S)
-RECURSIVE Ext(_, _)
-Ext(c, j) ==
+\* full: a TOKEN that a ?rule passed through counts with everything that ?rule matched around it; ~full: with its own
+\* span only (what the code can know: a token has no container attributes)
+RECURSIVE Ext(_, _, _)
+Ext(c, j, full) ==
   LET e == c.reds[j]
-      sp(i) == IF IsTok(e.kids[i]) THEN e.kids[i][4]
-               ELSE IF IsTree(e.kids[i]) /\ e.kid[i] # 0 /\ Producer(c, j, e.kid[i]) # 0 THEN Ext(c, Producer(c, j, e.kid[i]))
+      sp(i) == IF IsTok(e.kids[i]) /\ (~full \/ e.kid[i] = 0 \/ Producer(c, j, e.kid[i]) = 0) THEN e.kids[i][4]
+               ELSE IF (IsTok(e.kids[i]) \/ IsTree(e.kids[i])) /\ e.kid[i] # 0 /\ Producer(c, j, e.kid[i]) # 0 THEN Ext(c, Producer(c, j, e.kid[i]), full)
                ELSE Unset
       spans == {sp(i) : i \in DOMAIN e.kids} \ {Unset}
   IN IF spans = {} THEN Unset ELSE <<Min({x[1] : x \in spans}), Max({x[2] : x \in spans})>>
-SpanLaw(c, j) ==
-  LET e == c.reds[j] IN
-  (c.pp /\ IsTree(e.res) /\ e.rid \notin {e.kid[i] : i \in DOMAIN e.kid} /\ ~c.rules[e.r].helper /\ Ext(c, j) # Unset) => e.res[4] = Ext(c, j)
+Creates(c, j) ==
+  LET e == c.reds[j] IN c.pp /\ IsTree(e.res) /\ e.rid \notin {e.kid[i] : i \in DOMAIN e.kid} /\ ~c.rules[e.r].helper /\ Ext(c, j, TRUE) # Unset
+SpanLaw(c, j) == Creates(c, j) => c.reds[j].res[4] = Ext(c, j, TRUE)
+\* known finding C06-token-through-expand1: the node is exact except for what ?rules matched around tokens they returned
+SpanLawButTokens(c, j) == Creates(c, j) => c.reds[j].res[4] = Ext(c, j, FALSE)
 
 Init == tid \in 1..NCases /\ k = 0 /\ verdict = "ok"
 Next ==
@@ -31,7 +35,7 @@ Next ==
          rule == c.rules[e.r]
          want == Callback(rule, e.kids, c.pp)
          v == IF Len(e.kids) # Len(rule.syms) THEN "callback-got-another-number-of-children-than-the-rule-has-symbols"
-              ELSE IF ~SpanLaw(c, k + 1) THEN "node-meta-is-not-the-span-of-the-tokens-its-rule-matched"
+              ELSE IF ~SpanLaw(c, k + 1) THEN "node-meta-is-not-the-span-of-the-tokens-its-rule-matched" \o (IF SpanLawButTokens(c, k + 1) THEN "@token-through-expand1" ELSE "")
               ELSE IF want = e.res THEN "ok"
               ELSE IF want[1] # e.res[1] \/ want[2] # e.res[2] THEN "reduction-builds-another-node"
               ELSE IF want[3] # e.res[3] THEN "reduction-keeps-other-children"
